@@ -478,3 +478,58 @@ Example C01_source_pipeline_bounded_nonvacuous :
   | None => False
   end.
 Proof. vm_compute. repeat split; reflexivity. Qed.
+
+(* ---- method calls whose callee FetchFn finds as a nil map entry: BC/NilSafeFn.v, Bridge/BrRuntime.v ---- *)
+Require X.BC.NilSafeFn.
+
+(* `m?.f(args)`: receiver, then ALL arguments, then nil exactly when the receiver is nil or FetchFnNil yields the
+   zero reflect.Value (Prim.fetch_fn_zero: nil interface entry of an interface-typed map, nil pointer entry of a
+   pointer-typed map) - otherwise the call; for every expression, function environment, environment and state *)
+Theorem C01_nilsafe_method_closed_form : forall fe cfg env ctx a x name args s,
+  X.Sem.Sem.eval fe cfg env ctx (X.Syn.Ast.EMethod a x name args true) s =
+  match X.Sem.Sem.eval fe cfg env ctx x s with
+  | X.Sem.Sem.Stop e l s1 => X.Sem.Sem.Stop e l s1
+  | X.Sem.Sem.Done v s1 =>
+      match X.BC.CompileProofs.evl fe cfg env ctx args s1 with
+      | X.BC.CompileProofs.LStop e l s2 => X.Sem.Sem.Stop e l s2
+      | X.BC.CompileProofs.LDone vs s2 =>
+          if X.BC.NilSafeFn.skips_call v name then X.Sem.Sem.Done X.Base.Value.VNil s2
+          else X.Sem.Sem.lift (X.Syn.Ast.aloc a) s2 (X.Sem.Prim.fetch_fn fe v name)
+                 (fun id => X.Sem.Sem.do_call fe (X.Syn.Ast.aloc a) false id v vs s2)
+      end
+  end.
+Proof. exact X.BC.NilSafeFn.nilsafe_method_closed_form. Qed.
+Print Assumptions C01_nilsafe_method_closed_form.
+
+(* `m.f(args)` on such an entry fails in reflect at the call node, after the arguments *)
+Theorem C01_plain_method_closed_form : forall fe cfg env ctx a x name args s,
+  X.Sem.Sem.eval fe cfg env ctx (X.Syn.Ast.EMethod a x name args false) s =
+  match X.Sem.Sem.eval fe cfg env ctx x s with
+  | X.Sem.Sem.Stop e l s1 => X.Sem.Sem.Stop e l s1
+  | X.Sem.Sem.Done v s1 =>
+      match X.BC.CompileProofs.evl fe cfg env ctx args s1 with
+      | X.BC.CompileProofs.LStop e l s2 => X.Sem.Sem.Stop e l s2
+      | X.BC.CompileProofs.LDone vs s2 =>
+          if X.Sem.Prim.fetch_fn_zero v name then X.Sem.Sem.Stop X.Base.Value.EReflect (X.Syn.Ast.aloc a) s2
+          else X.Sem.Sem.lift (X.Syn.Ast.aloc a) s2 (X.Sem.Prim.fetch_fn fe v name)
+                 (fun id => X.Sem.Sem.do_call fe (X.Syn.Ast.aloc a) false id v vs s2)
+      end
+  end.
+Proof. exact X.BC.NilSafeFn.plain_method_closed_form. Qed.
+Print Assumptions C01_plain_method_closed_form.
+
+(* the zero-Value test is the SOURCE's: the Value the regenerated FetchFn / FetchFnNil of vm/runtime.go return is the
+   zero Value exactly when Prim.fetch_fn_zero holds (resp. the receiver is nil or it holds) *)
+Theorem C01_fetch_fn_zero_is_source : X.Bridge.BrRuntime.fetch_fn_zero_is_source_statement.
+Proof. exact X.Bridge.BrRuntime.fetch_fn_zero_is_source. Qed.
+Print Assumptions C01_fetch_fn_zero_is_source.
+
+(* the model as it was before (fetch_fn alone deciding) does not answer like the code on the probe's first input *)
+Theorem C01_method_zero_entry_old_model_refuted : ~ X.BC.NilSafeFn.old_model_agrees_with_code.
+Proof. exact X.BC.NilSafeFn.old_model_refuted. Qed.
+
+(* non-vacuity: the twelve inputs of the Go probe (nil interface / typed nil pointer / non-callable / missing entries,
+   pointer-typed map, nil receiver; plain and nil-safe) through the reference semantics AND the model compiler's code
+   on the model VM, with the classes vm.Run gave *)
+Example C01_method_zero_entry_examples : X.BC.NilSafeFn.probe_replayed_statement.
+Proof. exact X.BC.NilSafeFn.probe_replayed. Qed.
